@@ -1,16 +1,17 @@
 # Build of the hand-written Coq development, extraction and the OCaml model runner.
-COQDIR=/verif/coq
-OCDIR=/verif/ocaml
+ROOT := $(patsubst %/,%,$(dir $(abspath $(lastword $(MAKEFILE_LIST)))))
+COQDIR=$(ROOT)/coq
+OCDIR=$(ROOT)/ocaml
 .PHONY: setup coq extract clean forbidden
 setup: coq extract forbidden
 coq:
-	mkdir -p $(COQDIR)/Gen && python3 /verif/translate/tlsconf.py $(COQDIR)/Gen/TlsConfigGen.v
+	mkdir -p $(COQDIR)/Gen && python3 $(ROOT)/translate/tlsconf.py $(COQDIR)/Gen/TlsConfigGen.v
 	cd $(COQDIR) && coq_makefile -f _CoqProject -o Makefile.coq >/dev/null && timeout 3000 $(MAKE) -f Makefile.coq -j16 > build.log 2>&1 || (tail -40 build.log; exit 1)
 extract: coq
 	mkdir -p $(OCDIR)/gen && cd $(OCDIR)/gen && timeout 600 coqc -Q $(COQDIR) NV $(COQDIR)/Extract/Extract.v > extract.log 2>&1 || (cat extract.log; exit 1)
 	cd $(OCDIR) && ocamlfind ocamlopt -O3 -package str -I gen gen/model.mli gen/model.ml modelrun.ml -o modelrun 2>&1 | grep -v "options -O3 is only relevant" || true
 	test -x $(OCDIR)/modelrun
 forbidden:
-	@python3 /verif/tools/forbidden.py /verif/coq
+	@python3 $(ROOT)/tools/forbidden.py $(COQDIR)
 clean:
 	cd $(COQDIR) && (test -f Makefile.coq && $(MAKE) -f Makefile.coq clean >/dev/null 2>&1 || true); rm -rf $(OCDIR)/gen $(OCDIR)/modelrun $(OCDIR)/*.cm* $(OCDIR)/*.o
